@@ -1394,7 +1394,7 @@ class Sum(Linop):
         device = backend.get_device(input)
         xp = device.xp
         with device:
-            return xp.sum(input, axis=self.axes)
+            return xp.asarray(xp.sum(input, axis=self.axes))
 
     def _adjoint_linop(self):
         return Tile(self.ishape, self.axes)
